@@ -14,7 +14,11 @@ import stamp_run as sr
 
 MLS = ("stamp",)
 HARNESSES = ()
-THEOREMS = []
+THEOREMS = ["C03_stamp_sender", "C03_stamp_clean", "C03_stamp_intact", "C03_forged_irrelevant",
+            "C03_sender_partial", "C03_every_delivery", "C03_sender_refuted", "C03_placeholder_is_no_name",
+            "C03_unique", "C03_names_exact", "C03_name_form_injective", "C03_no_fault_below_bound", "C03_second_hello_refused",
+            "C03_mint_matches_c", "C03_constants_match_c",
+            "C03_ex_hypotheses_satisfiable", "C03_ex_names", "C03_ex_forwarded", "C03_ex_placeholder", "C03_ex_f13"]
 
 
 def load_known():
